@@ -10,7 +10,11 @@ open Lean DU Interop
           off the implementation), extRange (bits of the range given to set_transmission_range)
   acts  : a request of the sim driver | ["track", key, value] | ["ext", method] |
           ["onRefused", act, [alternatives]] |
-          ["trackInc", key] | ["sendTracked", key] | ["sendCount"]   (see `RAct`)
+          ["trackInc", key] | ["sendTracked", key] | ["sendCount"] | ["picReport", how]   (see `RAct`)
+  optional, a protocol that plugs handlers in front of its callbacks (`create_dispatcher`):
+          plug {stages: p, at: "initialize" | "lazy"}; a table row then also has
+          stages [[acts of handler 0], ..., [acts of handler p-1]] and stop (the handler that answers
+          INTERRUPT, or null)
   optional, several wrapped instances of the one protocol class alive at once:
           ids [id of instance 0, 1, ...] (default [id]), who [instance index per step] (default all 0),
           legs {interop: [instances present], python: [...]} (default: all; the steps of an absent
@@ -23,6 +27,10 @@ namespace InteropDriver
 structure PState where
   seen : Nat
   tv : List (String × String)
+  /-- the instance's callback methods are wrapped by its dispatcher -/
+  plugged : Bool := false
+  /-- the picture lists this instance was handed and what it has made of them -/
+  album : Ext.Album := []
 
 def tvGet (tv : List (String × String)) (k : String) : Option String :=
   (tv.find? (fun x => x.1 == k)).map (·.2)
@@ -34,12 +42,25 @@ def tvSet (tv : List (String × String)) (k v : String) : List (String × String
     seen / written so far
       trackInc k    : `tv[k] = str(int(tv.get(k, "0")) + 1)`        (read-modify-write of a tracked variable)
       sendTracked k : `broadcast(f"{k}={tv.get(k, '-')}")`           (a tracked variable read back into a request)
-      sendCount     : `broadcast(f"n={self.seen}")`                  (the instance counts its callbacks) -/
+      sendCount     : `broadcast(f"n={self.seen}")`                  (the instance counts its callbacks)
+      picReport how : `pic = camera.take_picture(); <complete pic>; broadcast(f"pic={len(pic)}")`
+                      the picture is EMPTY in both wrappers (interop: the camera is a no-op; python: the
+                      harness' mobility handler knows no other node) and it is a list of its own, so the
+                      report counts what this very statement added -/
 inductive RAct
   | act (a : Act Float)
   | trackInc (k : String)
   | sendTracked (k : String)
   | sendCount
+  | picReport (added : Nat)
+
+def picAdded : String → Except String Nat
+  | "read" => pure 0
+  | "append" => pure 1
+  | "extend" => pure 2
+  | "insert" => pure 1
+  | "iadd" => pure 1
+  | s => throw s!"unknown picture use {s}"
 
 inductive ASpec
   | plain (a : RAct)
@@ -58,6 +79,12 @@ def resolve (s : PState) : RAct → Act Float × PState
     (.track k v, { s with tv := tvSet s.tv k v })
   | .sendTracked k => (.req (.broadcast (k ++ "=" ++ (tvGet s.tv k).getD "-")), s)
   | .sendCount => (.req (.broadcast ("n=" ++ toString s.seen)), s)
+  | .picReport k =>
+    -- nobody else is to be seen in either wrapper (interop: no handler; python: the harness' mobility
+    -- handler knows no other node), so the provider `.other` stands for both
+    let r := Ext.takePicture Ext.Provider.other [] s.album
+    let pic := r.2.getD r.1 [] ++ List.replicate k s.seen
+    (.req (.broadcast ("pic=" ++ toString pic.length)), { s with album := r.2.set r.1 pic })
 
 def extOfName : String → Except String ExtCall
   | "camera.take_picture" => pure .cameraTakePicture
@@ -99,6 +126,7 @@ def ractOfJson (j : Json) : Except String RAct := do
   | "trackInc" => pure (.trackInc (← a[1]!.getStr?))
   | "sendTracked" => pure (.sendTracked (← a[1]!.getStr?))
   | "sendCount" => pure .sendCount
+  | "picReport" => pure (.picReport (← picAdded (← a[1]!.getStr?)))
   | _ => pure (.act (← actOfJson j))
 
 def aspecOfJson (j : Json) : Except String ASpec := do
@@ -128,7 +156,15 @@ def progOf (uncaught : Bool) : PState → List ASpec → XProg Float PState
     .act r.1 (fun ok => if ok then progOf uncaught r.2 rs else
       altProg uncaught r.2 alt (fun s' => progOf uncaught s' rs))
 
-abbrev Table := Std.HashMap String (Bool × List ASpec)
+structure Row where
+  uncaught : Bool
+  acts : List ASpec
+  /-- the action lists of the plugged handlers, by registration number -/
+  stages : List (List ASpec)
+  /-- the handler that answers INTERRUPT to this callback -/
+  stop : Option Nat
+
+abbrev Table := Std.HashMap String Row
 
 def tableOfJson (j : Json) : Except String Table := do
   let rows ← j.getArr?
@@ -140,17 +176,38 @@ def tableOfJson (j : Json) : Except String Table := do
     let time ← (← field row "t").getInt?
     let acts ← (← (← field row "acts").getArr?).toList.mapM aspecOfJson
     let unc := (fieldD row "uncaught" (Json.bool false)) == Json.bool true
-    t := t.insert (SimDriver.trigKey n kind key time) (unc, acts)
+    let stages ← match row.getObjVal? "stages" with
+      | .ok (Json.arr a) => a.toList.mapM (fun st => do (← st.getArr?).toList.mapM aspecOfJson)
+      | _ => pure []
+    let stop := match row.getObjVal? "stop" with
+      | .ok v => v.getNat?.toOption
+      | .error _ => none
+    t := t.insert (SimDriver.trigKey n kind key time) ⟨unc, acts, stages, stop⟩
   pure t
 
-def protoOfTable (t : Table) : XProto Float PState :=
-  { init := { seen := 0, tv := [] },
-    react := fun s0 n time cb =>
-      let s : PState := { s0 with seen := s0.seen + 1 }
-      let (kind, key) := SimDriver.cbKey cb
-      match t.get? (SimDriver.trigKey n kind key time) with
-      | some (unc, acts) => progOf unc s acts
-      | none => .done s }
+/-- the table protocol; `p` handlers plugged with the instance's dispatcher at `at_`:
+    "initialize" — in its own `initialize()`; "lazy" — when its own method first sees an event -/
+def protoOfTable (t : Table) (p : Nat) (at_ : String) : XProto Float PState :=
+  let rowOf := fun (n : NodeId) (time : Int) (cb : Callback Float) =>
+    let (kind, key) := SimDriver.cbKey cb
+    t.get? (SimDriver.trigKey n kind key time)
+  let plugsNow := fun (cb : Callback Float) =>
+    p > 0 && ((at_ == "initialize" && (SimDriver.cbKey cb).1 == "initialize") || (at_ == "lazy" && interruptible cb))
+  let own : XProto Float PState :=
+    { init := { seen := 0, tv := [] },
+      react := fun s n time cb =>
+        let s1 : PState := if plugsNow cb then { s with plugged := true } else s
+        match rowOf n time cb with
+        | some r => progOf r.uncaught s1 r.acts
+        | none => .done s1 }
+  let stage := fun (k : Nat) => Stage.mk (S := Float) (σ := PState) (fun s n time cb =>
+    match rowOf n time cb with
+    | some r =>
+      XProg.bind (progOf r.uncaught s (r.stages.getD k [])) (fun s' => .done (s', r.stop == some k)) (fun s' => (s', false))
+    | none => .done (s, false))
+  -- registered 0, 1, ..., p-1, each in front of the earlier ones
+  let P := own.plugged (·.plugged) ((List.range p).reverse.map stage)
+  { init := P.init, react := fun s n time cb => P.react { s with seen := s.seen + 1 } n time cb }
 
 def stepOfJson (j : Json) : Except String (Int × Callback Float) := do
   let a ← j.getArr?
@@ -219,7 +276,10 @@ def run (j : Json) : Except String Json := do
   let table ← tableOfJson (← field j "table")
   let codes ← field j "ctypes"
   let extRange ← floatOfBits (fieldD j "extRange" (Json.str "0"))
-  let P := protoOfTable table
+  let plug := fieldD j "plug" (Json.mkObj [])
+  let nStages ← (fieldD plug "stages" (toJson (0 : Nat))).getNat?
+  let plugAt ← (fieldD plug "at" (Json.str "initialize")).getStr?
+  let P := protoOfTable table nStages plugAt
   let idOf (k : Nat) : NodeId := ids.getD k 0
   let addressed := who.zip steps
   let stepsI := addressed.filter (fun x => inI.contains x.1)
